@@ -18,7 +18,6 @@ const AUTH_NO_AUTHENTICATION: u8 = 0x00;
 const AUTH_NOT_ACCEPTABLE: u8 = 0xFF;
 
 /// SOCKS5 command types
-#[allow(dead_code)]
 const CMD_CONNECT: u8 = 0x01;
 #[allow(dead_code)]
 const CMD_BIND: u8 = 0x02;
@@ -43,7 +42,6 @@ const REPLY_HOST_UNREACHABLE: u8 = 0x04;
 const REPLY_CONNECTION_REFUSED: u8 = 0x05;
 #[allow(dead_code)]
 const REPLY_TTL_EXPIRED: u8 = 0x06;
-#[allow(dead_code)]
 const REPLY_COMMAND_NOT_SUPPORTED: u8 = 0x07;
 #[allow(dead_code)]
 const REPLY_ADDRESS_TYPE_NOT_SUPPORTED: u8 = 0x08;
@@ -92,7 +90,21 @@ async fn handle_socks5_connection(
 
     // Step 2: Read connection request
     tracing::debug!("[SOCKS5] Reading connection request");
-    let (dest_addr, _cmd) = read_connection_request(&mut client_conn).await?;
+    let (dest_addr, cmd) = read_connection_request(&mut client_conn).await?;
+    if cmd != CMD_CONNECT {
+        // Only CONNECT is implemented; BIND / UDP ASSOCIATE must not open a TCP tunnel
+        tracing::warn!("[SOCKS5] Unsupported command: 0x{:02x}", cmd);
+        send_connection_reply(
+            &mut client_conn,
+            REPLY_COMMAND_NOT_SUPPORTED,
+            dest_addr.clone(),
+        )
+        .await?;
+        return Err(AnyTlsError::Protocol(format!(
+            "Unsupported SOCKS5 command: 0x{:02x}",
+            cmd
+        )));
+    }
     tracing::debug!(
         "[SOCKS5] Connection request: {}:{}",
         dest_addr.addr,
